@@ -236,6 +236,34 @@ Theorem C12_mkdir_all_post_kernel_backend :
     end.
 Proof. exact DynResolve.mkdir_all_kernel_post. Qed.
 
+(* ---- either backend, given what its partial lookup returned: everything after the lookup is backend-independent.
+   For the emulated backend the lookup's result (handle on [o], unresolved rest) is what T3 executes against the
+   library and C04 differences against the kernel backend; from there on this theorem applies. *)
+From PV Require DynMkdirAny.
+Theorem C12_mkdir_all_either_backend_given_lookup :
+  forall s rp fz pfuel gh ps rs t root path mode t1 h o remaining exp,
+  fz <> 0%nat -> DynMkdir.closed2 s -> ph_mnt gh = Some Static.PROC_MNT -> ph_openat2 gh = true ->
+  N.ldiff mode MKDIR_ALL_MASK1 = 0 -> N.ldiff mode MKDIR_ALL_MASK2 = 0 ->
+  Static.run s rp t (r_resolve_partial fz true (S pfuel) gh ps rs root path false) =
+    Static.Done t1 (Ok (match remaining with None => Complete h | Some rm => Partial h rm (OsError ENOENT) end)) ->
+  Static.tget t1 (ph_fd gh) = Some (Static.PB s) -> Static.tget t1 h = Some o -> (o < Static.PB s)%nat ->
+  FSModel.is_dir s o = true -> Static.find_path s o = Some exp ->
+  N.leb READLINK_BUF (N.of_nat (length (Static.render rp exp))) = false ->
+  existsb is_dotdot (DynMkdirAll.parts_of remaining) = false -> (forall x, remaining = Some x -> has_nul x = false) ->
+  exists t',
+    match snd (DynMkdir.mk_spec s o (DynMkdirAll.parts_of remaining)) with
+    | inl c => exists fd,
+        Dyn.drun rp {| Dyn.ds := s; Dyn.dt := t; Dyn.dseen := [] |} (root_mkdir_all fz true (S pfuel) gh ps rs root path mode) =
+          Dyn.DDone {| Dyn.ds := fst (DynMkdir.mk_spec s o (DynMkdirAll.parts_of remaining)); Dyn.dt := t'; Dyn.dseen := [] |} (Ok fd) /\
+        Static.tget t' fd = Some c /\
+        (forall x, StaticBal.indom t' x -> x = fd \/ (StaticBal.indom t1 x /\ x <> h))
+    | inr e =>
+        Dyn.drun rp {| Dyn.ds := s; Dyn.dt := t; Dyn.dseen := [] |} (root_mkdir_all fz true (S pfuel) gh ps rs root path mode) =
+          Dyn.DDone {| Dyn.ds := fst (DynMkdir.mk_spec s o (DynMkdirAll.parts_of remaining)); Dyn.dt := t'; Dyn.dseen := [] |} (Err (OsError e)) /\
+        (forall x, StaticBal.indom t' x -> StaticBal.indom t1 x /\ x <> h)
+    end.
+Proof. exact DynMkdirAny.mkdir_all_given_lookup. Qed.
+
 (* ---- C12, completeness: mkdir_all has no reason to fail when every component that exists along the remaining
    chain is a directory and every name fits NAME_MAX -- and then it does not fail (kernel backend).  [dirs_ok]:
    every entry's directory is an object of the tree. *)
@@ -366,6 +394,7 @@ Print Assumptions C12_partial_lookup_kernel_backend.
 Print Assumptions C12_mkdir_all_kernel_backend.
 Print Assumptions C12_handle_is_resolution_in_resulting_tree.
 Print Assumptions C12_mkdir_all_post_kernel_backend.
+Print Assumptions C12_mkdir_all_either_backend_given_lookup.
 Print Assumptions C12_spec_complete.
 Print Assumptions C12_mkdir_all_succeeds_kernel_backend.
 Print Assumptions C12_interference_free_is_spec.
